@@ -118,13 +118,22 @@ Proof.
   apply count_setb. rewrite (nth_indep _ true false); [assumption|]. lia.
 Qed.
 
-(* eventually_requested_partial.  What is proved: (1) request_enabled / reissue_after_disconnect: under the
-   statement's hypotheses a REQUEST for a missing block is ENABLED in the delegate relation; (2) fin_progress:
-   completions are strictly monotone.  What is NOT proved (fairness of the implementation, outside the acceptor):
-   that the client actually takes the enabled step, i.e. that m_tryRequest is raised and the connection sits
-   in the download choke queue whenever a request is enabled, and that timers/ticks continue. The
-   correspondence run checks this part dynamically (completion phase) -- and FAILS it on the real code for the
-   class `no-completion` (see the report / known-finding proposal). *)
+(* eventually_requested_partial.  What is proved, for the code as repaired by the four fix: commits:
+   (1) enabledness: request_enabled / reissue_after_disconnect -- under the statement's hypotheses a REQUEST for a
+       missing block is ENABLED in the delegate relation (this theorem);
+   (2) the client is in a position to take it (ProofsLive.v, over the liveness layer xaccept):
+       interested_unchoked_is_queued  interested /\ peer-unchoked ==> member of the download choke queue (A);
+       have_raises_interest           a HAVE for a wanted-or-listed missing piece raises interest and queues (C);
+       choke_leaves_nothing_live / choke_then_timer_empty   a CHOKE leaves no request in a live bucket, the 6 s
+                                      timer then none at all: nothing pins a block to a peer that forgot it (D);
+       pipe_counts_only_valid / interest_kept_while_requestable   cancelled entries never fill the pipe, and the
+                                      acceptor refuses "interest dropped" while a block is delegatable, no valid
+                                      request is queued and the pipe gate is open (E);
+   (3) fin_progress: completions are strictly monotone.
+   What is still NOT a theorem (outside the acceptor; checked dynamically by the completion phase of every run):
+   that choke_queue actually unchokes a queued connection (its slot policy, the 10 s rule and the 30 s balance
+   tick), that ticks/timers keep firing, that the write buffer has room (can_write_request), and the should_request
+   heuristics on m_down_stall in endgame mode. *)
 Theorem eventually_requested_partial : forall s p c i o l,
   get_conn s p = Some c -> c_interested c = true -> c_unchoked c = true ->
   valid_block s i o l = true -> getb (c_have c) i = true -> getb (s_completed s) i = false ->
